@@ -20,6 +20,10 @@ const (
 // the framework handed out) and the rendering of its content at capture time.
 type entry struct {
 	Acc, Key string
+	// Form: how the accessor was called when not in its plain form (a default given, the key spelled in
+	// another case); Site: where in the handler chain the value was obtained when not in the route's
+	// (last) handler (bare application, sites.go). Both qualify the signature (" form=", " site=").
+	Form, Site string
 	kind     kind
 	s        string
 	b        []byte
@@ -117,7 +121,41 @@ func (e *entry) intact() bool {
 	return e.now() == e.cp
 }
 
-func (e *entry) id() string { return e.Acc + "|" + e.Key }
+// id names a captured value inside a request: [site@]accessor[(form)]|key.
+func (e *entry) id() string {
+	id := e.Acc
+	if e.Form != "" {
+		id += "(" + e.Form + ")"
+	}
+	if e.Site != "" {
+		id = e.Site + "@" + id
+	}
+	return id + "|" + e.Key
+}
+
+// parseID is the inverse of id (without the key).
+func parseID(id string) (site, acc, form string) {
+	acc = id[:strings.IndexByte(id, '|')]
+	if i := strings.IndexByte(acc, '@'); i >= 0 {
+		site, acc = acc[:i], acc[i+1:]
+	}
+	if i := strings.IndexByte(acc, '('); i >= 0 && strings.HasSuffix(acc, ")") {
+		acc, form = acc[:i], acc[i+1:len(acc)-1]
+	}
+	return site, acc, form
+}
+
+// qualSF: the signature qualifiers of a value's capture site and call form.
+func qualSF(site, form string) string {
+	q := ""
+	if site != "" {
+		q += " site=" + site
+	}
+	if form != "" {
+		q += " form=" + form
+	}
+	return q
+}
 
 // sigAcc is the accessor name used in signatures: the Req() twins are pure delegations
 // (req.go holds no logic), so they share the signature of the method they forward to.
